@@ -159,6 +159,8 @@ def g_case(s):
     if k == "fine":
         pair = lambda a: "(%s, %s)" % (g_nat(a[0]), g_nat(a[1]))
         return "CFine %s %s %s %s %s" % (g_bool(s[1]), g_N(s[2]), g_list(g_xop, s[3]), g_opt(g_bytes, s[4]), g_list(pair, s[5]))
+    if k == "cleanfine":
+        return "CCleanFine %s %s %s %s %s" % (g_bool(s[1]), g_N(s[2]), g_list(g_xop, s[3]), g_opt(g_bytes, s[4]), g_list(g_nat, s[5]))
     if k == "trace":
         return "CTrace %s %s %s %s" % (g_bytes(s[1]), g_opt(g_bytes, s[2]), g_bool(s[3]), g_list(g_event, s[4]))
     if k == "serve":
